@@ -38,7 +38,7 @@ func init() {
 	for _, n := range simhook.ProbeNames {
 		pn = append(pn, n)
 	}
-	pn = append(pn, "same-type-first-used-by-2+-tasks", "type-nested-in-another-tasks-type", "recursive-type", "map-field-type(proto structPool)", "anymap-of-fresh-types", "ops", "typeof-identity-checked", "result-stability-checked", "steady-state-rechecked", "corrupted-input-ops", "case-changed-keys")
+	pn = append(pn, "same-type-first-used-by-2+-tasks", "type-nested-in-another-tasks-type", "recursive-type", "map-field-type(proto structPool)", "anymap-of-fresh-types", "ops", "typeof-identity-checked", "result-stability-checked", "steady-state-rechecked", "corrupted-input-ops", "case-changed-keys", "marshal-output>64KiB", "caches-prewarmed-with-many-types")
 	core.Register(&core.Property{
 		ID: "C09", Level: "exploration", Engine: "sched", Race: true, Sched: true,
 		Quick: 60000, Thorough: 3000000,
@@ -101,6 +101,8 @@ type c09Op struct {
 	corrupt bool
 	// caseChanged: the keys of the input document are in another case
 	caseChanged bool
+	// big: a Marshal whose output exceeds 64 KiB
+	big bool
 }
 
 type c09Res struct {
@@ -156,10 +158,10 @@ func (op *c09Op) exec() (res c09Res) {
 	switch op.kind {
 	case opJSONMarshal:
 		b, err := json.Marshal(op.val.Interface())
-		res.out, res.err = b, errStr(err)
+		res.out, res.err = ownSpare(b), errStr(err)
 	case opJSONMarshalAnyMap:
 		b, err := json.Marshal(op.vals)
-		res.out, res.err = b, errStr(err)
+		res.out, res.err = ownSpare(b), errStr(err)
 	case opJSONAppend:
 		b, err := json.Append(make([]byte, 0, 16), op.val.Interface(), op.flags)
 		res.out, res.err = b, errStr(err)
@@ -258,6 +260,51 @@ func (w *yieldingWriter) Write(p []byte) (int, error) {
 	return len(p), nil
 }
 
+// ownSpare is what a caller may do with a slice it was given: append to it in
+// place.  The spare capacity is filled and becomes part of the tracked result,
+// so memory the library still uses behind the result shows as a change.
+func ownSpare(b []byte) []byte {
+	if cap(b) == len(b) || b == nil {
+		return b
+	}
+	ext := b[:cap(b)]
+	for i := len(b); i < len(ext); i++ {
+		ext[i] = 0xEE
+	}
+	return ext
+}
+
+var c09WarmTypes []reflect.Type
+
+// c09Prewarm makes the three codecs build and cache n distinct one-field types.
+func c09Prewarm(n int) {
+	for len(c09WarmTypes) < n {
+		i := len(c09WarmTypes)
+		c09WarmTypes = append(c09WarmTypes, reflect.StructOf([]reflect.StructField{{
+			Name: fmt.Sprintf("W%d", i), Type: reflect.TypeOf(int32(0)),
+			Tag: reflect.StructTag(`json:"w" protobuf:"varint,1,opt,name=w" thrift:"1"`),
+		}}))
+	}
+	defer func() { recover() }()
+	for i := 0; i < n; i++ {
+		v := reflect.New(c09WarmTypes[i])
+		json.Marshal(v.Interface())
+		proto.Size(v.Interface())
+		thrift.Marshal(binProto, v.Elem().Interface())
+	}
+}
+
+var c09BigStrings = map[int]*string{}
+
+func c09BigString(n int) *string {
+	if s := c09BigStrings[n]; s != nil {
+		return s
+	}
+	s := strings.Repeat("big-output-", n/11+1)[:n]
+	c09BigStrings[n] = &s
+	return &s
+}
+
 func describeProtoType(t proto.Type, depth int) (s string) {
 	defer func() {
 		if e := recover(); e != nil {
@@ -279,6 +326,16 @@ func describeProtoType(t proto.Type, depth int) (s string) {
 			ft = f.Type.Name()
 		}
 		s += fmt.Sprintf("{%d:%s:%s:%v}", f.Number, f.Name, ft, f.Repeated)
+		// the lookups by name and by number find the same field
+		if g := t.FieldByName(f.Name); g.Number != f.Number || g.Index != f.Index {
+			s += fmt.Sprintf("!FieldByName(%s)=%d/%d", f.Name, g.Number, g.Index)
+		}
+		if g := t.FieldByNumber(f.Number); g.Name != f.Name || g.Index != f.Index {
+			s += fmt.Sprintf("!FieldByNumber(%d)=%s/%d", f.Number, g.Name, g.Index)
+		}
+	}
+	if depth == 0 {
+		s += "|" + t.String()
 	}
 	return s
 }
@@ -355,6 +412,12 @@ func c09MakeOp(t *tape.Tape, ty *simType, pool []*simType) *c09Op {
 	case gen.JSON:
 		op.kind = []int{opJSONMarshal, opJSONAppend, opJSONUnmarshal, opJSONParse, opJSONEncoder, opJSONDecoder, opJSONTokenizer, opJSONMarshalAnyMap, opJSONMarshal, opJSONUnmarshal, opJSONTokenizerReuse, opJSONEncoder}[t.Intn(12)]
 		op.val = vg.New(ty.rt)
+		if op.kind == opJSONMarshal && t.Chance(1, 30) {
+			// an output beyond 64 KiB (the encoder's pooled buffer grows past any
+			// threshold a shortcut could be tied to)
+			op.val = reflect.ValueOf(c09BigString([]int{66000, 100000, 150000, 200000, 65534}[t.Intn(5)]))
+			op.big = true
+		}
 		switch op.kind {
 		case opJSONAppend:
 			op.flags = json.SortMapKeys
@@ -575,6 +638,9 @@ func runC09(r *core.Run) {
 			if op.caseChanged {
 				r.Probe("case-changed-keys")
 			}
+			if op.big {
+				r.Probe("marshal-output>64KiB")
+			}
 			tasks[i] = append(tasks[i], op)
 			nops++
 			if usedBy[ty] == nil {
@@ -601,6 +667,14 @@ func runC09(r *core.Run) {
 		}
 	}
 
+	// sometimes the caches already hold many types when the concurrent first uses
+	// happen (growth policies of a cache may change with its size)
+	warm := 0
+	if t.Chance(1, 50) {
+		warm = []int{70, 130, 130, 260}[t.Intn(4)]
+		r.Probe("caches-prewarmed-with-many-types")
+	}
+
 	cfg := schedConfig(t, 40*nops)
 	r.Fault("strategy:" + c09ModeNames[cfg.Mode])
 	r.Fault("pool-policy:" + poolPolicyNames[cfg.PoolPolicy[0]])
@@ -612,6 +686,8 @@ func runC09(r *core.Run) {
 		ref[i] = make([]c09Res, len(tasks[i]))
 		for j, op := range tasks[i] {
 			simhook.ResetAll()
+			simhook.SetConfig(simhook.Config{})
+			c09Prewarm(warm)
 			simhook.SetConfig(cfg)
 			res := simhook.Run(1, cfg, func(int) { ref[i][j] = op.exec() })
 			est += res.Points
@@ -628,6 +704,9 @@ func runC09(r *core.Run) {
 
 	// ---- the concurrent phase ---------------------------------------------------
 	simhook.ResetAll()
+	simhook.SetConfig(simhook.Config{})
+	c09Prewarm(warm)
+	simhook.SetConfig(cfg)
 	simhook.TakeProbes()
 	got := make([][]c09Res, ntasks)
 	for i := range got {
